@@ -102,7 +102,7 @@ namespace Afkak.Producer
 open Afkak.Consts Afkak.Monitor.ProducerTrace Afkak.Monitor.C09
 
 def qOf (st : St) : Ev → List Sid
-  | .send sid _ _ msgs => if sid = st.nextSid ∧ msgs.isEmpty = false then queued st ++ [sid] else queued st
+  | .send sid _ _ msgs => if sid = st.nextSid ∧ msgs.isEmpty = false ∧ st.stopping = false then queued st ++ [sid] else queued st
   | .cancel sid => (queued st).filter (· ≠ sid)
   | .stop .. => []
   | _ => queued st
@@ -251,16 +251,18 @@ theorem geo_step (cfg : Cfg) (st : St) (e : Ev) (hi : st.phase = .idle → st.in
     simp only [step, qOf]
     split
     · rename_i hs
-      have : ¬ (sid = st.nextSid ∧ msgs.isEmpty = false) := fun h => hs h.1
+      have : ¬ (sid = st.nextSid ∧ msgs.isEmpty = false ∧ st.stopping = false) := fun h => hs h.1
       rw [if_neg this]; exact GeoOut.same rfl (by simp [shapeOf, isShape]) (fun x hx => hx)
     · rename_i hs
       have hs' : sid = st.nextSid := by simpa using hs
       split
       · rename_i hm
-        have : ¬ (sid = st.nextSid ∧ msgs.isEmpty = false) := fun h => by rw [hm] at h; cases h.2
+        have : ¬ (sid = st.nextSid ∧ msgs.isEmpty = false ∧ st.stopping = false) := fun h => by
+          rw [h.2.1, h.2.2] at hm; cases hm
         rw [if_neg this]; exact GeoOut.same rfl (by simp [shapeOf, isShape]) (fun x hx => hx)
       · rename_i hm
-        have hm' : msgs.isEmpty = false := by simpa using hm
+        have hm' : msgs.isEmpty = false ∧ st.stopping = false := by
+          cases h1 : msgs.isEmpty <;> cases h2 : st.stopping <;> simp [h1, h2] at hm ⊢
         rw [if_pos ⟨hs', hm'⟩]
         simp only [doSend]
         have g := geo_of_cases (cfg := cfg) (st := enqueue st sid topic key msgs) (r := checkSendBatch cfg (enqueue st sid topic key msgs))
@@ -472,8 +474,8 @@ open Afkak.Consts Afkak.Monitor.ProducerTrace Afkak.Monitor.C09
 theorem factor_gt_one : (1 : Rat) < producerRetryFactor := by decide +kernel
 
 theorem track_tsr (pre : Snap) (t : Track) (s : Step) :
-    ((s.post.idle || dispatched t.nextSid pre s) = true → (track pre t s).timersSinceReset = 0) ∧
-    ((s.post.idle || dispatched t.nextSid pre s) = false →
+    ((s.post.idle || dispatched t.nextSid t.stopped pre s) = true → (track pre t s).timersSinceReset = 0) ∧
+    ((s.post.idle || dispatched t.nextSid t.stopped pre s) = false →
       (track pre t s).timersSinceReset = t.timersSinceReset + nTimers s.obs) := by
   constructor
   · intro h; simp only [track, h, if_true]
@@ -482,7 +484,7 @@ theorem track_tsr (pre : Snap) (t : Track) (s : Step) :
     split <;> simp only [foldl_tsr, trackEv_tsr]
 
 theorem dispatched_eq (st : St) (e : Ev) (obs : List Ob) (st' : St) :
-    dispatched st.nextSid (snapOf st) { ev := e, obs := obs, post := snapOf st' } =
+    dispatched st.nextSid st.stopping (snapOf st) { ev := e, obs := obs, post := snapOf st' } =
       (qOf st e).any (fun x => x ∉ queued st') := by
   simp only [dispatched, qOf, snapOf, queued]
   cases e <;> rfl
@@ -506,8 +508,8 @@ theorem geoRel_step (cfg : Cfg) (st : St) (t : Track) (pre : Snap) (e : Ev) (h :
   obtain ⟨hrel', _, _, _⟩ := rel_step cfg st t (snapOf st) e hrel
   have go := geo_step cfg st e (fun hp => (hrel.idle0 hp).2)
   obtain ⟨hts1, hts0⟩ := track_tsr (snapOf st) t (mkStep cfg st e)
-  have hdq : dispatched t.nextSid (snapOf st) (mkStep cfg st e) = (qOf st e).any (fun x => x ∉ queued (step cfg st e).1) := by
-    rw [hns]; exact dispatched_eq st e _ _
+  have hdq : dispatched t.nextSid t.stopped (snapOf st) (mkStep cfg st e) = (qOf st e).any (fun x => x ∉ queued (step cfg st e).1) := by
+    rw [hns, hrel.stopped]; exact dispatched_eq st e _ _
   have hpi : (mkStep cfg st e).post.idle = (snapOf (step cfg st e).1).idle := rfl
   have hobs : (mkStep cfg st e).obs = (step cfg st e).2 := rfl
   rw [hdq, hpi] at hts1 hts0
